@@ -78,7 +78,8 @@ def run(ctx):
     pi = inp.lookup('prepare_input_for_recording')
     called_by_prepare = {n.func.attr for n in ast.walk(pi.node) if isinstance(n, ast.Call) and self_attr(n.func)}
     icpt = one(lambda m: m.name in called_by_prepare and m.cls is fi, 'interception routine')
-    above = one(lambda m: has_call(m, 'getsize'), 'size predicate')
+    above = one(lambda m: any(isinstance(n, ast.Compare) and any(self_attr(x) == 'intercepted_size_limit' for x in ast.walk(n)) and
+                              not all(isinstance(o, (ast.Is, ast.IsNot)) for o in n.ops) for n in ast.walk(m.node)), 'size predicate')
     ser = one(lambda m: has_call(m, 'b64encode'), 'serialize')
     des = one(lambda m: has_call(m, 'b64decode'), 'deserialize')
     ph = one(lambda m: m is not des and any(isinstance(n, ast.Attribute) and n.attr == 'ABOVE_LIMIT_CONTENT' for n in ast.walk(m.node)) and
@@ -142,8 +143,20 @@ def run(ctx):
         e = defs.get(side.id) if isinstance(side, ast.Name) else side
         mbs = [m for m in fi.methods.values() if any(isinstance(n, ast.BinOp) and isinstance(n.op, ast.Div) and '1024' in norm(n.right) for n in ast.walk(m.node))]
     mb = mbs[0] if len(mbs) == 1 else None
-    unit_ok = mb is not None and isinstance(e, ast.Call) and self_attr(e.func) == mb.name and e.args and isinstance(e.args[0], ast.Call) and \
-        norm(e.args[0].func).endswith('getsize')
+    from ..loader import expand_locals as _xl
+    e = _xl(above.node, e) if e is not None else e
+    src = e.args[0] if mb is not None and isinstance(e, ast.Call) and self_attr(e.func) == mb.name and e.args else None
+    # the size measured is that of the content a read would return: getsize / stat follow symbolic links, lstat measures the link itself
+    follows = src is not None and ((isinstance(src, ast.Call) and norm(src.func).endswith('getsize')) or
+                                   (isinstance(src, ast.Attribute) and src.attr == 'st_size' and isinstance(src.value, ast.Call) and
+                                    norm(src.value.func).split('.')[-1] in ('stat', 'fstat')))
+    link_size = src is not None and isinstance(src, ast.Attribute) and src.attr == 'st_size' and isinstance(src.value, ast.Call) and \
+        norm(src.value.func).split('.')[-1] == 'lstat'
+    if link_size:
+        res.add(Finding('C20', 'C20.a', 'R-DOM', above.file, above.qualname, src.lineno, norm(src),
+                        'the size compared with the limit is `%s`, the size of the directory entry: for a symbolic link that is the length of the link '
+                        'text, so a file above the limit reached through a link is read into the recording' % norm(src)))
+    unit_ok = follows or link_size
     conv_ok = mb is not None and any(isinstance(n, ast.BinOp) and isinstance(n.op, ast.Div) and '1024' in norm(n.right) for n in ast.walk(mb.node))
     # the conversion is exact: a plain true division of the byte count (rounding / truncation would move files across the limit)
     if mb is not None:
@@ -195,7 +208,7 @@ def run(ctx):
     for c in (fi, inp, outp, holder):
         for m in c.methods.values():
             for n in ast.walk(m.node):
-                if isinstance(n, ast.Call) and norm(n.func) in ('open', 'io.open'):
+                if isinstance(n, ast.Call) and norm(n.func) in ('open', 'io.open', 'os.fdopen'):
                     mode = n.args[1].value if len(n.args) > 1 and isinstance(n.args[1], ast.Constant) else None
                     for k in n.keywords:
                         if k.arg == 'mode' and isinstance(k.value, ast.Constant):
@@ -208,6 +221,15 @@ def run(ctx):
         if not ok:
             res.add(Finding('C20', 'C20.b', 'R-AGREE', m.file, m.qualname, n.lineno, norm(n),
                             'intercepted file content is opened in text mode (%r): newline translation / decoding changes the bytes' % mode))
+    # restoring writes the whole file: an existing (longer) file at the replayed path must not keep its tail
+    from . import common as _cmw
+    for c in (inp, outp, holder):
+        for m in c.methods.values():
+            for n, why in _cmw.nontruncating_writes(m.node):
+                cb.instance('%s: %s truncates' % (m.qualname, norm(n)[:60]), m.qualname, False)
+                res.add(Finding('C20', 'C20.b', 'R-AGREE', m.file, m.qualname, n.lineno, norm(n)[:100],
+                                'the restored file is opened without truncation (%s): when a longer file already exists at the replayed path the '
+                                'restored content is followed by the old file\'s tail' % why))
     # ---------------- C20.c codec
     def codec_calls(fn, names):
         return [n for n in ast.walk(fn.node) if isinstance(n, ast.Call) and ((isinstance(n.func, ast.Attribute) and n.func.attr in names) or
